@@ -332,6 +332,24 @@ func shiftOfPair(fa *FA, v ssa.Value, depth int) (Lin, bool) {
 	return Lin{}, false
 }
 
+// shiftOfPow2: v is 2^k << s (k a constant, possibly 0): returns the exponent s + k.
+func shiftOfPow2(fa *FA, v ssa.Value) (Lin, bool) {
+	if c, ok := constUint64(v); ok {
+		if k, isP := log2(c); isP {
+			return linConst(int64(k)), true
+		}
+		return Lin{}, false
+	}
+	if bo, ok := v.(*ssa.BinOp); ok && bo.Op == token.SHL {
+		if c, ok := constUint64(stripConv(bo.X)); ok {
+			if k, isP := log2(c); isP {
+				return fa.Lin(bo.Y).Add(linConst(int64(k))), true
+			}
+		}
+	}
+	return Lin{}, false
+}
+
 func reportPrefix(w *World, r *Report, fn *ssa.Function) {
 	// R-WIDTH32: the index is a 32-bit quantity; every bit count taken of it (the highest differing bit of index-W and
 	// index, the rank of the fixed prefix bits) looks at all 32 bits
@@ -381,6 +399,28 @@ func reportPrefix(w *World, r *Report, fn *ssa.Function) {
 			return
 		}
 		switch bo.Op {
+		case token.ADD, token.OR:
+			// the mask of one 32-bit half replicated into both: half + half<<32 with half = 2^hi - 2^d, which is
+			// (pair<<hi) - (pair<<d) term by term
+			for _, pr := range [2][2]ssa.Value{{bo.X, bo.Y}, {bo.Y, bo.X}} {
+				hx, k, okS := asBinConst(pr[1], token.SHL)
+				if !okS || k != 32 || fa.VN(hx) != fa.VN(pr[0]) {
+					continue
+				}
+				hb, okH := pr[0].(*ssa.BinOp)
+				if !okH || hb.Op != token.SUB {
+					continue
+				}
+				hi, ok1 := shiftOfPow2(fa, hb.X)
+				d, ok2 := shiftOfPow2(fa, hb.Y)
+				if ok1 && ok2 {
+					var dv ssa.Value
+					if sh, ok := hb.Y.(*ssa.BinOp); ok {
+						dv = sh.Y
+					}
+					ms = append(ms, fixedMask{bo, hi, d, dv})
+				}
+			}
 		case token.SUB:
 			hi, ok1 := shiftOfPair(fa, bo.X, 0)
 			d, ok2 := shiftOfPair(fa, bo.Y, 0)
